@@ -1,7 +1,7 @@
 """Theorems of lean/TLX/Props/ExportFaults.lean (+ ExportFaultsEx.lean): C03 for the whole program — bystanders (TLS and QUIC)
 unaffected by an arbitrary victim flow, no payload / key-log text / session can abort the run, the victim of a `cut-after`
 fault exports a prefix. To be required by c03."""
-MODULES = ["TLX.Props.ExportFaults", "TLX.Props.ExportFaultsEx"]
+MODULES = ["TLX.Props.ExportFaults", "TLX.Props.ExportFaultsEx", "TLX.Props.ExportFaults2"]
 _NS = "TLX.Props.ExportFaults."
 THEOREMS = [_NS + n for n in [
     "export_bystander_unaffected_quic", "export_bystander_unaffected_quic_file",
@@ -9,3 +9,12 @@ THEOREMS = [_NS + n for n in [
     "tls_prefix_of_view", "cutVictim_bystanders", "export_victim_cut_tls", "export_victim_cut_quic", "dirBytes_prefix",
     "Ex.hBV", "Ex.hVB", "Ex.bystander_quic_instance", "Ex.bystander_quic_view", "Ex.victim_cut_view",
     "Ex.never_abort_instance"]]
+_N2 = "TLX.Props.ExportFaults2."
+# the victim's own clause for the fault kinds ExportFaults left to the oracle (-> c03 as well)
+THEOREMS += [_N2 + n for n in [
+    "sub_delivery_releases_prefix", "delete_releases_prefix", "conv_direction_run", "convStreams_spec",
+    "erased_prefix_exports_prefix", "export_victim_delete_tls", "tlsConvs_single_flow",
+    "headless_run", "no_serverHello_run", "export_victim_headless_tls",
+    "quic_loss_subsequence",
+    "Ex.delete_instance", "Ex.retransmission_fills_hole", "Ex.headless_instance"]]
+THEOREMS += ["TLX.Lemmas.CarrierMap.Sess.run_nat"]
